@@ -936,7 +936,7 @@ def run(ctx, replay=None):
     # the pool is ordered (corpus pairs first, then round-robin over function x family x units); it is
     # certified in batches until the pool or the tier's time budget is exhausted -- the first batch always runs
     items = cert_pool(entries, ctx, ctx.n(200, 4200))
-    deadline = ctx.t0 + ctx.n(150, 1000)
+    deadline = ctx.t0 + ctx.n(150, 850)
     done, k = 0, 0
     while done < len(items):
         now = time.time()
